@@ -14,7 +14,7 @@ header_fasta skip_fasta end_fasta sqascii_Read ReadInfo ReadSequence ReadWindow 
 namespace EaselModel.Sqio
 open Tables
 
-/-- `rpl bpl prvrpl prvbpl currpl curbpl` of `ESL_SQASCII_DATA` (−1 = unset, 0 = invalidated) -/
+/-- `rpl bpl prvrpl prvbpl currpl curbpl maxrpl maxxpl` of `ESL_SQASCII_DATA` (−1 = unset, 0 = invalidated) -/
 structure Track where
   rpl : Int := -1
   bpl : Int := -1
@@ -22,33 +22,44 @@ structure Track where
   prvbpl : Int := -1
   currpl : Int := -1
   curbpl : Int := -1
+  maxrpl : Int := 0
+  maxxpl : Int := 0
   deriving Repr, DecidableEq, Inhabited
+
+/-- the "a line that is followed by another must be a full line" test of `seebuf_linegeometry()` for one of the two widths:
+    `p` = that count on the previous line, `q` = the other count on the previous line (−1 = no previous line), `w` = the width so far -/
+def Track.fullLine (p q w : Int) : Int :=
+  if p ≠ -1 ∧ q ≠ -1 then (if w = -1 then p else if p ≠ w then 0 else w) else w
+
+/-- `seebuf_linegeometry(ascii, at_eol)`: bring `rpl`/`bpl` up to date with the current line (complete or not) and the line before
+    it in the same record: a line that is followed by another must be a full line; no line at all may hold more residues than `rpl`
+    or more ignored bytes (the newline not counted) than a full line (`maxrpl`, `maxxpl` remember the worst line seen so far). -/
+def Track.lineGeometry (t : Track) (atEol : Bool) : Track :=
+  if t.curbpl ≤ 0 ∨ t.currpl = -1 then t else
+  let xpl := t.curbpl - t.currpl - (if atEol then 1 else 0)
+  let maxrpl := if t.currpl > t.maxrpl then t.currpl else t.maxrpl
+  let maxxpl := if xpl > t.maxxpl then xpl else t.maxxpl
+  let rpl := Track.fullLine t.prvrpl t.prvbpl t.rpl
+  let bpl := Track.fullLine t.prvbpl t.prvrpl t.bpl
+  if rpl > 0 ∧ bpl > 0 ∧ (maxrpl > rpl ∨ maxxpl > bpl - rpl - 1) then
+    { t with rpl := 0, bpl := 0, maxrpl := maxrpl, maxxpl := maxxpl }
+  else
+    { t with rpl := rpl, bpl := bpl, maxrpl := maxrpl, maxxpl := maxxpl }
+
+/-- the `cur*` counters advanced by `dB` bytes and `dR` residues (not when "unknown", −1) -/
+def Track.advance (t : Track) (dB dR : Int) : Track :=
+  { t with curbpl := if t.curbpl ≠ -1 then t.curbpl + dB else t.curbpl,
+           currpl := if t.currpl ≠ -1 then t.currpl + dR else t.currpl }
 
 /-- what `seebuf` does to the line-geometry bookkeeping when it sees an end-of-line symbol;
     `dB`/`dR` = bytes (inclusive of the EOL) and residues seen on this line since the last update -/
 def Track.onEol (t : Track) (dB dR : Int) : Track :=
-  let curbpl := if t.curbpl != -1 then t.curbpl + dB else t.curbpl
-  let currpl := if t.currpl != -1 then t.currpl + dR else t.currpl
-  let rpl :=
-    if t.rpl != 0 && t.prvrpl != -1 then
-      if t.rpl == -1 then t.prvrpl
-      else if t.prvrpl != t.rpl then 0
-      else if currpl > t.rpl then 0
-      else t.rpl
-    else t.rpl
-  let bpl :=
-    if t.bpl != 0 && t.prvbpl != -1 then
-      if t.bpl == -1 then t.prvbpl
-      else if t.prvbpl != t.bpl then 0
-      else if curbpl > t.bpl then 0
-      else t.bpl
-    else t.bpl
-  { rpl := rpl, bpl := bpl, prvrpl := currpl, prvbpl := curbpl, currpl := 0, curbpl := 0 }
+  let t2 := (t.advance dB dR).lineGeometry true
+  { t2 with prvrpl := t2.currpl, prvbpl := t2.curbpl, currpl := 0, curbpl := 0 }
 
-/-- the tail of `seebuf`: account for the partial line at the end of the examined stretch -/
-def Track.onStop (t : Track) (dB dR : Int) : Track :=
-  { t with curbpl := if t.curbpl != -1 then t.curbpl + dB else t.curbpl,
-           currpl := if t.currpl != -1 then t.currpl + dR else t.currpl }
+/-- the tail of `seebuf`: account for the partial line at the end of the examined stretch (a record's last line may end at EOF
+    or at the EOD character, without a newline) -/
+def Track.onStop (t : Track) (dB dR : Int) : Track := (t.advance dB dR).lineGeometry false
 
 def Track.reset (t : Track) : Track := { t with currpl := -1, curbpl := -1, prvrpl := -1, prvbpl := -1 }
 
